@@ -43,6 +43,22 @@ type concOp struct {
 var concPrivateKinds = []string{"parse", "parse", "parsetz", "parsenul", "rewritewild", "parsesame", "parsequery", "parseexpr", "print", "quotestr", "quoteident", "fmtdur", "parsedur", "sanitize", "scan", "needsquotes"}
 var concSharedKinds = []string{"s.string", "s.string", "s.clone", "s.clonerewrite", "s.walk", "s.eval", "s.reduce", "s.reducenow", "s.rewritefields", "s.columns", "s.privs", "s.names", "s.condexpr", "s.evaltype", "s.measurements"}
 
+// sharedMapsMapper answers every FieldDimensions call with the same two map objects.
+type sharedMapsMapper struct {
+	stubMapper
+	fields map[string]influxql.DataType
+	tags   map[string]struct{}
+}
+
+func (m *sharedMapsMapper) FieldDimensions(*influxql.Measurement) (map[string]influxql.DataType, map[string]struct{}, error) {
+	return m.fields, m.tags, nil
+}
+
+var concSharedSchema = func() *sharedMapsMapper {
+	f, t, _ := stubMapper{}.FieldDimensions(nil)
+	return &sharedMapsMapper{fields: f, tags: t}
+}()
+
 func drawConcOps(r *rand.Rand, n int, sharedText string) []concOp {
 	ops := make([]concOp, n)
 	sharedKinds := concSharedKinds
@@ -89,7 +105,7 @@ func drawConcOps(r *rand.Rand, n int, sharedText string) []concOp {
 			// wildcard calls of every type family on a private statement, against a schema with every field type
 			// (round-4 seeded change C17-1 kept the supported-type sets in package-level maps, and one family
 			// deleted from them)
-			op.arg = "SELECT " + pick(r, []string{"mean(*)", "holt_winters(*, 10, 4)", "holt_winters_with_fit(*, 10, 4)", "sum(*)", "max(*)", "count(*)", "first(*)", "median(/./)", "mean(*), max(*)", "count(*), sum(*)"}) + " FROM m"
+			op.arg = "SELECT " + pick(r, []string{"* FROM m GROUP BY host --", "* FROM m GROUP BY region, host --", "* FROM m --", "*, mean(*) FROM m GROUP BY host --", "mean(*)", "holt_winters(*, 10, 4)", "holt_winters_with_fit(*, 10, 4)", "sum(*)", "max(*)", "count(*)", "first(*)", "median(/./)", "mean(*), max(*)", "count(*), sum(*)"}) + " FROM m"
 		case "parsetz":
 			// zone names in several spellings: each parse answers for its own spelling, whatever was parsed
 			// before or at the same time (seeded changes C17-3 / C17-6 kept looked-up zones in a package-level table)
@@ -123,7 +139,10 @@ func runConcOp(op concOp, shared *influxql.SelectStatement) (out string) {
 		if err != nil {
 			return "err: " + err.Error()
 		}
-		rw, err := st.(*influxql.SelectStatement).RewriteFields(stubMapper{})
+		// the schema is handed out as the same two maps on every call, by every goroutine (a mapper backed by an
+		// index does that): RewriteFields only reads them (round-6 seeded change C17-2: a fast path returned the
+		// mapper's maps and the GROUP BY handling deleted from them)
+		rw, err := st.(*influxql.SelectStatement).RewriteFields(concSharedSchema)
 		if err != nil {
 			return "err: " + err.Error()
 		}
